@@ -4,7 +4,9 @@ import (
 	"context"
 	"database/sql"
 	"encoding/json"
+	"errors"
 	"fmt"
+	"reflect"
 	"strings"
 	"time"
 
@@ -56,6 +58,19 @@ func openMemDB(ctx context.Context) (*sql.DB, uint32) {
 	return db, seed
 }
 
+// insertChecked: insertEvents on Go values made from js; the store is given events to read, not to rewrite (a
+// relay hands the same *Event to its cache and to its router as well)
+func insertChecked(ctx context.Context, db *sql.DB, seed uint32, js []common.JEvent) error {
+	evs := toEvents(js)
+	if err := sqlite.VerifInsertEvents(ctx, db, seed, evs); err != nil {
+		return err
+	}
+	if !reflect.DeepEqual(evs, toEvents(js)) {
+		return errors.New("insertEvents rewrote the events it was given")
+	}
+	return nil
+}
+
 func toEvents(js []common.JEvent) []*mocrelay.Event {
 	out := make([]*mocrelay.Event, len(js))
 	for i := range js {
@@ -88,7 +103,7 @@ func c06RunDirect(c *c06Case) {
 	db, seed := openMemDB(ctx)
 	defer db.Close()
 	for i := range c.Steps {
-		if err := sqlite.VerifInsertEvents(ctx, db, seed, toEvents(c.Steps[i].B)); err != nil {
+		if err := insertChecked(ctx, db, seed, c.Steps[i].B); err != nil {
 			c.Panic = "insertEvents failed: " + err.Error()
 			return
 		}
